@@ -145,6 +145,13 @@ def dispatch (op : String) (args obs : List String) : Outcome :=
                    prop := if b == "bad=0" then .ok else .bad s!"C07 concurrently built messages corrupted {b} ; C03 concurrently built messages corrupted {b}",
                    branch := s!"pkconc.{n}" }
      | _ => { corr := .bad "bad-line" })
+  | "HSH" =>
+    match opHSH args obs with
+    | some d =>
+      { corr := match d.corr with | none => .ok | some w => .bad w,
+        prop := if d.fails.isEmpty then .ok else .bad (" ; ".intercalate d.fails),
+        branch := d.branch }
+    | none => { corr := .bad "bad-line" }
   | "IND" =>
     -- constructors are functions of their arguments: what one value goes through is invisible to another
     (match args, obs with
